@@ -117,6 +117,11 @@ extern "C" int harness_main()
 	he.name = std::string(200, 'n'); cfg.hosts.push_back(he);
 	simulation s(cfg);
 	cfg.net.append(std::make_shared<queue>(s.get_io_context(), 0, duration(1000000), 0, "net"));
+#if MODE == 0
+	int const kind = vp_choose(8);   // 0 v5 ip ok, 1 v5 name ok, 2 v5 ip refused, 3 v5 name unresolvable, 4 v4 ok, 5 v4 refused, 6 v5 200-character name, 7 v5 ip ok with a reply much larger than a congestion window
+	// (routes are fixed when a node is created, so the slow link has to exist before the client node does)
+	if (kind == 7) cfg.in[CA].append(std::make_shared<queue>(s.get_io_context(), 20000, duration(0), 0, "slow"));
+#endif
 	asio::io_context cios(s, CA), pios(s, PA), t_ios(s, TA), tios(s);
 	error_code ec;
 	target t; tcp::acceptor tacc(t_ios); tcp::socket tsock(t_ios);
@@ -125,17 +130,11 @@ extern "C" int harness_main()
 	tacc.async_accept(tsock, [&](error_code const& e) { if (e) return; ++t.accepted; tsock.non_blocking(true); target_read(t); });
 
 #if MODE == 0
-	int const kind = vp_choose(8);   // 0 v5 ip ok, 1 v5 name ok, 2 v5 ip refused, 3 v5 name unresolvable, 4 v4 ok, 5 v4 refused, 6 v5 200-character name, 7 v5 ip ok with a reply larger than a congestion window
 	vp_scenario(kind);
 	int const version = (kind == 4 || kind == 5) ? 4 : 5;
-	static std::string long_name(200, 'n');
-	if (kind == 7)
-	{
-		// the client's downlink is slow: the proxy reads from the target faster than it can write to the client
-		g_extra_reply = 4000;
-		cfg.in[CA].append(std::make_shared<queue>(s.get_io_context(), 20000, duration(0), 0, "slow"));
-	}
 	socks_server* proxy = new socks_server(pios, 1080, version);
+	static std::string long_name(200, 'n');
+	if (kind == 7) g_extra_reply = 10000;   // the client's downlink is slow: the proxy reads from the target faster than it can write to the client
 	std::string neg;
 	if (kind == 0) neg = v5_connect_ip(TA.to_v4(), 9000);
 	else if (kind == 1) neg = v5_connect_name("target.test", 9000);
@@ -146,7 +145,7 @@ extern "C" int harness_main()
 	else if (kind == 6) neg = v5_connect_name(long_name.c_str(), 9000);
 	else neg = v5_connect_ip(TA.to_v4(), 9000);
 	bool const ok = kind == 0 || kind == 1 || kind == 4 || kind == 6 || kind == 7;
-	int const extra = kind == 7 ? 4000 : 0;
+	int const extra = kind == 7 ? 10000 : 0;
 	// a SOCKS client waits for each reply before it goes on: greeting (v5), request, then payload
 	client c; tcp::socket csock(cios); asio::high_resolution_timer ctimer(tios);
 	c.sock = &csock; c.timer = &ctimer;
